@@ -1326,8 +1326,31 @@ pub(crate) fn m_block_colour_leak() {
     }
 }
 
+/// Selectors whose subject compound has no element name match through child combinators.
+pub(crate) fn m_selector_entry() {
+    let _which: u8 = kani::any();
+    let red = RichAnnotation::Colour(Colour { r: 255, g: 0, b: 0 });
+    // (selector, word that must be red, word that must not be)
+    let cases: [(&str, &str, &str); 8] = [
+        ("p > .x", "wone", "wtwo"), ("div > p > .x", "wone", "wtwo"), ("p > #e", "wthree", "wone"), ("p > *", "wone", "wfive"),
+        ("#top .x", "wone", "wthree"), ("p.c > span", "wone", "wfive"), (".x", "wtwo", "wthree"), ("div > p > span > .x", "wsix", "wone"),
+    ];
+    for (sel, yes, no) in cases.iter() {
+        let html = format!("<style>{} {{ color: #ff0000 }}</style><div id=\"top\"><p class=\"c\"><span class=\"x\">wone</span> <i id=\"e\">wthree</i> <span><b class=\"x\">wsix</b></span></p><b class=\"x\">wtwo</b> wfive</div>", sel);
+        let toks = rich_tokens(html.as_bytes(), 80, true);
+        let find = |w: &str| toks.iter().find(|(t, _)| t.contains(w)).map(|(_, a)| a.clone()).unwrap_or_else(|| panic!("{}: token {} missing", sel, w));
+        if *sel == ".x" {
+            assert!(find("wone").contains(&red) && find("wtwo").contains(&red) && find("wsix").contains(&red), "{}: not applied everywhere", sel);
+            assert!(!find(no).contains(&red), "{}: applied to {}", sel, no);
+            continue;
+        }
+        assert!(find(yes).contains(&red), "selector `{}` does not match {}: {:?}", sel, yes, find(yes));
+        if !(*sel == "p > *" ) { assert!(!find(no).contains(&red), "selector `{}` matches {}", sel, no); }
+    }
+}
+
 crate::verif_common::registry! {
-    m_block_colour_leak, m_footnote_list, m_strike_layout, m_element_dispatch, m_link_min_width, m_table_sections, m_table_caption, m_inline_tags, m_colspan_huge, m_frag_in_word, m_ol_prefix_width, m_dom_reuse, m_columns, m_prefix_blank_lines, m_shallow_empty, m_link_footnotes, m_strike_affix, m_frag_nested, m_dom_children, m_cell_unwind, m_routes_width, m_insert_child, m_ol_numbering, m_prefix_width, m_into_cells, m_table_col_width, m_table_alloc,
+    m_selector_entry, m_block_colour_leak, m_footnote_list, m_strike_layout, m_element_dispatch, m_link_min_width, m_table_sections, m_table_caption, m_inline_tags, m_colspan_huge, m_frag_in_word, m_ol_prefix_width, m_dom_reuse, m_columns, m_prefix_blank_lines, m_shallow_empty, m_link_footnotes, m_strike_affix, m_frag_nested, m_dom_children, m_cell_unwind, m_routes_width, m_insert_child, m_ol_numbering, m_prefix_width, m_into_cells, m_table_col_width, m_table_alloc,
     r1_cascade_pairs, r1_cascade_triples, r2_specificity_order, r2_specificity_add,
     r3_ol_prefix_total, r4_ol_prefix_is_max,
     r9_tree_map_reduce_order, r12_config_plumbing, r12_width_zero,
